@@ -536,7 +536,49 @@ def run_unprintable(chk, spec):
 		chk.fail("all orderings of one multiset infer the same schema", "infer/order-dependent/unprintable-value", f"classes {names!r}: {[(list(q), r) for q, r in outs.items()][:4]!r}")
 
 
-RUNNERS = {"unprintable": run_unprintable, "stale_result": run_stale_result, "widen_only": run_widen_only, "expr": run_expr, "reject": run_reject, "dynclass": run_dynclass, "seq": run_seq, "vector": run_vector, "step": run_step, "commute": run_commute, "allnone": run_allnone, "result": run_result}
+ROW_TYPING_OPS = {"to_object": lambda r: r.to_object(), "fillna-0": lambda r: r.fillna(0), "copy": lambda r: r.copy(), "lshift-nothing": lambda r: r << [], "lshift-none": lambda r: r << [None], "plus-0": lambda r: r + 0,
+	"slice": lambda r: r[0:], "dropna": lambda r: r.dropna(), "isna": lambda r: r.isna(), "cast-float": lambda r: r.cast(float)}
+
+
+def run_iterated_rows(chk, spec):
+	"""the dtype a typing operation gives the i-th row of ONE iteration (a single view moved along the table) depends on that row's values only:
+	it equals what the same operation gives a row fetched on its own, whichever rows the loop looked at before"""
+	import warnings
+	rows = {"none-late": [[1, 2, 3], [4, None, 6], [7, 8, None]], "none-early": [[None, 2, 3], [4, 5, 6], [7, None, 9]], "widening": [[1, 2, 3], [1.5, 2, 3], [1, 2, 1j]],
+		"no-none-then-all-none": [[1, 2, 3], [None, None, None], [4, 5, 6]]}[spec["rows"]]
+	cols = [list(c) for c in zip(*rows)]
+	fn = ROW_TYPING_OPS[spec["op"]]
+	with warnings.catch_warnings():
+		warnings.simplefilter("ignore")
+		t = Table({f"c{j}": col for j, col in enumerate(cols)})
+		order = spec["order"]
+		got = {}
+		if order == "forward":
+			for i, row in enumerate(t):
+				got[i] = call(fn, row)
+		elif order == "every-row-twice":
+			for i, row in enumerate(t):
+				call(fn, row)
+				got[i] = call(fn, row)
+		else:
+			r = t[0]
+			for i in (2, 0, 1):
+				got[i] = call(fn, r.set_index(i))
+		chk.judged("result-typing", ("iterated-rows", spec["op"], spec["rows"], order))
+		for i in sorted(got):
+			ref = call(fn, t[i])
+			a, b = got[i], ref
+			da = (sch(a.value.schema()) if a.ok and isinstance(a.value, Vector) and a.value.schema() is not None else ("raise" if not a.ok else None))
+			db = (sch(b.value.schema()) if b.ok and isinstance(b.value, Vector) and b.value.schema() is not None else ("raise" if not b.ok else None))
+			if a.ok and isinstance(a.value, Vector):
+				chk.observe(a.value, "iterated-row/" + spec["op"])
+			if da != db:
+				chk.fail("the dtype of a result depends only on the values it was computed from", f"infer/row-of-iteration-typed-by-history/{spec['op']}",
+					f"{spec!r}: row {i} = {rows[i]!r} of one iteration gives {fmt(da) if isinstance(da, tuple) else da!r}, the same row fetched alone {fmt(db) if isinstance(db, tuple) else db!r}")
+				return
+
+
+RUNNERS = {"iterated_rows": run_iterated_rows, "unprintable": run_unprintable, "stale_result": run_stale_result, "widen_only": run_widen_only, "expr": run_expr, "reject": run_reject, "dynclass": run_dynclass, "seq": run_seq, "vector": run_vector, "step": run_step, "commute": run_commute, "allnone": run_allnone, "result": run_result}
 
 
 # ------------------------------------------------------------------ driver
@@ -595,6 +637,10 @@ def run(chk):
 		chk.case("expr", {"name": name}, "result-typing-expr")
 	for names in (["huge", "str"], ["huge", "float"], ["huge", "int"], ["norepr", "int"], ["norepr", "str", "huge"], ["str", "huge", "none"], ["huge", "date"], ["norepr", "norepr", "int"], ["huge", "str", "float"]):
 		chk.case("unprintable", {"names": names}, "seq-unprintable")
+	for op in ROW_TYPING_OPS:
+		for rows in ("none-late", "none-early", "widening", "no-none-then-all-none"):
+			for order in ("forward", "every-row-twice", "moved-by-hand"):
+				chk.case("iterated_rows", {"op": op, "rows": rows, "order": order}, "result-typing-iterated-rows")
 	for op in ("window", "window-vector-key", "aggregate", "join", "inner_join", "full_join", "sort-aggregate"):
 		for stale in ("none", "was-none", "was-float", "was-complex"):
 			for right in (("full", "emptied-by-mask", "emptied-by-slice", "no-match") if "join" in op else ("full",)):
